@@ -475,6 +475,8 @@ def run(rep: common.Report):
     b.seconds = time.time() - t0
     rep.bounded.append(b)
     rep.extra["solver_seconds_path_pruning"] = round(eng.solver_time, 3)
+    from vc.static import state as _state
+    rep.add(_state.obligation(PID, ('alarms',), Obligation, PROVED, UNDECIDED))
     rep.explanation = __doc__
 
 
